@@ -464,6 +464,11 @@ def x7_shims(text, log):
         return "vx_join_semi(%s, %s)" % (m.group(1), m.group(2))
     text = re.sub(r"\bformat!\(\"\{\};\{\}\", ((?:[a-z_][a-z0-9_]*\.into\(\))|(?:vx_into_string\([a-z_][a-z0-9_]*\))), ([a-z_][a-z0-9_]*)\)", joinsemi, text)
 
+    def tget(m):
+        log.add("X7:vx_tables_get")
+        return "vx_tables_get(%s, %s)" % (m.group(1), m.group(2))
+    text = re.sub(r"\b(tables)\.get\((&self\.table_name)\)", tget, text)
+
     def anypk(m):
         log.add("X7:vx_any_primary_key")
         return "vx_any_primary_key(&%s)" % m.group(1)
@@ -689,6 +694,12 @@ def x3c_container(text, log):
     t2 = re.sub(r"\bStreams<'a, F(?:: 'a)?>", "Streams", t2)
     # closed world: FinishImpl is the only implementor of the private trait Finish
     t2 = re.sub(r"\bBox<dyn Finish<F>>", "Box<FinishImpl>", t2)
+    # a function generic in F only for its `comp: &mut cfb::CompoundFile<F>` parameter: with the
+    # model type the parameter F and its where clause disappear
+    if "VComp" in t2 and re.search(r"\bfn\s+[a-z_][a-z0-9_]*<F>\(", t2):
+        t2 = re.sub(r"(\bfn\s+[a-z_][a-z0-9_]*)<F>\(", r"\1(", t2)
+        t2 = re.sub(r"\bwhere\s+F: Read \+ Write \+ Seek,", lambda m: _nl(m.group(0)), t2)
+        log.add("X3c:fn<F>..where F: Read+Write+Seek -> no type parameter")
     if t2 != text:
         log.add("X3c:cfb::CompoundFile<F>->VComp")
     return t2
